@@ -59,7 +59,9 @@ WANTED = [("sbdfstring.c", "sbdf_convert_utf8_to_iso88591"), ("sbdfstring.c", "s
           ("object.c", "sbdf_read_objects"), ("object.c", "sbdf_obj_read_arr"), ("object.c", "sbdf_obj_read"),
           ("valuearray.c", "sbdf_va_read"), ("tableslice.c", "sbdf_ts_write_end"),
           # goto end (the common clean-up) as a loop that runs once
-          ("columnslice.c", "sbdf_cs_read")]
+          ("columnslice.c", "sbdf_cs_read"),
+          # p[i] on a char* flag array, p->arr + i as an out-cell
+          ("tableslice.c", "sbdf_ts_read")]
 PARTIAL = {"sbdf_read_valuearray_int"}          # untranslatable statements of these become SFault instead of failing the function
 IN_PARTIAL = [False]
 GLOBAL_VT = {}          # file-level sbdf_valuetype variables that are initialised with a literal and never written: name -> id
@@ -114,12 +116,17 @@ def call_stmt(ret, n, scope, value_args_only=False):
                 fieldreads |= fp.r
                 cells.append(tmp); args.append('(AAddr "%s")' % tmp); continue
             args.append("(AVal (EFieldAddr %s (EConst %d)))" % (p_, idx)); continue
+        elem = None
         if (u.get("kind") == "UnaryOperator" and u.get("opcode") == "&" and unparen(u["inner"][0]).get("kind") == "ArraySubscriptExpr"
-                and is_pp(qt(unparen(unparen(u["inner"][0])["inner"][0]))) and is_pp(qt(unparen(a))) and norm_t(qt(unparen(a))) != "void**" and not value_args_only):
-            # g(..., &p->arr[i]) with an out-cell parameter: the element is handed over by copy-in / copy-out,
+                and is_pp(qt(unparen(unparen(u["inner"][0])["inner"][0])))):
+            elem = (unparen(u["inner"][0])["inner"][0], unparen(u["inner"][0])["inner"][1])
+        elif (u.get("kind") == "BinaryOperator" and u.get("opcode") == "+" and is_pp(qt(unparen(u["inner"][0]))) and qt(unparen(u["inner"][1])) == "int"
+                and strip_casts(u["inner"][0]).get("kind") == "MemberExpr"):
+            elem = (u["inner"][0], u["inner"][1])          # p->arr + i: the same element
+        if elem is not None and is_pp(qt(unparen(a))) and norm_t(qt(unparen(a))) != "void**" and not value_args_only:
+            # g(..., &p->arr[i]) / g(..., p->arr + i) with an out-cell parameter: the element is handed over by copy-in / copy-out,
             #   $a = p->arr[i];  g(..., &$a);  p->arr[i] = $a;      (the call must touch neither p->arr nor i)
-            sub = unparen(u["inner"][0])
-            p_, fp = expr(sub["inner"][0], scope); i_, fi = expr(sub["inner"][1], scope)
+            p_, fp = expr(elem[0], scope); i_, fi = expr(elem[1], scope)
             if fp.w or fp.io or fi.w or fi.io: raise Untranslatable("address of an element reached through side effects")
             tmp = "$a%d" % (len([x for x in EXTRA_LOCALS if x.startswith("$a")]) + 1)
             EXTRA_LOCALS.add(tmp)
@@ -539,6 +546,11 @@ def expr(n, scope):
                     if fp.w or fi.w: raise Untranslatable("subscript with side effects")
                     return "(ELoadInt32 %s %s)" % (p_, i_), fx_join(fp, fi)
                 raise Untranslatable("subscript of something that is not ((int*)p)")
+            if s.get("kind") == "ArraySubscriptExpr" and qt(s) == "char" and is_charptr(qt(unparen(s["inner"][0]))):
+                # p[i] on a char pointer into the caller's memory: *(p + i)
+                p_, fp = expr(s["inner"][0], scope); i_, fi = expr(s["inner"][1], scope)
+                if fp.w or fi.w: raise Untranslatable("subscript with side effects")
+                return "(EDeref (EPtrAdd %s %s))" % (p_, i_), fx_join(fp, fi)
             if s.get("kind") == "MemberExpr" and s.get("name") == "id":
                 b = strip_casts(s["inner"][0])
                 if b.get("kind") == "DeclRefExpr" and b.get("referencedDecl", {}).get("kind") == "ParmVarDecl":
